@@ -386,19 +386,19 @@ func TestC16Exhaustive(t *testing.T) {
 	hx.Rec("C16").Subspace("k in 0..6 false sync bytes (every mix of AFC-00 and reserved-PID kinds) x 0..3 filler bytes x {true header follows, nothing follows} x 2 buffer sizes x 3 fragmentations x {*bufio.Reader, minimal PeekScanner}")
 }
 
-// TestC16Huge: offsets that do not fit a 32-bit int (one stream of 2 GiB of generated filler; thorough tier, shard 0).
+// TestC16Huge: offsets that do not fit a 32-bit int or a uint32 (generated filler of 2 and 4 GiB; thorough tier, shard 0 and the 386 pass).
 func TestC16Huge(t *testing.T) {
 	c16Rule()
 	if !hx.Thorough() || !(hx.FirstShard() || runtime.GOARCH == "386") {
 		t.Skip("thorough tier: shard 0 and the 32-bit pass")
 	}
-	for _, pad := range []int64{1<<31 - 2, 1<<31 + 1000} {
+	for _, pad := range []int64{1<<31 - 2, 1<<31 + 1000, 1<<32 + 1<<20 + 7} {
 		c := CaseC16{HugePad: pad, BufSize: 1 << 16}
 		if f := propC16.EvalFast(c, hx.HashInts(uint64(pad), 16)); f != nil {
 			t.Fatalf("VIOLATION-CANDIDATE property=C16 key=%s: %s", f.Key, f.Msg)
 		}
 	}
-	hx.Rec("C16").Subspace("two streams whose first plausible header lies 2^31-2+4 and 2^31+1000+4 bytes in (generated filler, nothing held in memory)")
+	hx.Rec("C16").Subspace("three streams whose first plausible header lies 2^31-2+4, 2^31+1000+4 and 2^32+2^20+7+4 bytes in (generated filler, nothing held in memory)")
 }
 
 func FuzzC16(f *testing.F) {
